@@ -223,6 +223,8 @@ impl Model {
         r.script = st.script.clone();
         let mut p = Pred { r, ev: Vec::new(), always_relaxed: false, relax_kind: 5, abort_risk: false, must_panic: false, builds: 0, relax: Relax::default(), clones: 0, nontrivial: false };
 
+        // default for the relaxed oracle (ops that involve more refine it): only `slot` may change
+        p.relax = self.relax_base(&[slot], &[]);
         if st.op == Op::Nop || (st.op != Op::New && !self.exists(slot)) {
             p.r.op = Op::Nop;
             return p;
